@@ -72,7 +72,7 @@ Theorem C08_creation_status : forall s m,
     /\ find_auction s (st_aseq s) = None
     /\ st_aseq (snd (step s (OTx m))) = (st_aseq s + 1)%N
     /\ a_status a = (if a_start a <=? st_now s then Started else StandBy)
-    /\ (exists e, a_ends a = [e]) /\ (a_max_round a <= 30)%N /\ (a_type a = FixedPrice -> a_max_round a = 0%N).
+    /\ (exists e, a_ends a = [e]) /\ (a_max_round a <= MaxExtendedRound)%N /\ (a_type a = FixedPrice -> a_max_round a = 0%N).
 Proof. exact L_C08_creation_status. Qed.
 Print Assumptions C08_creation_status.
 
